@@ -4,6 +4,7 @@ mod common;
 mod r_hist;
 mod r_minmax;
 mod r_nan;
+mod r_quant;
 mod r_sort;
 
 use common::Toks;
@@ -20,6 +21,7 @@ fn dispatch(routine: &str, t: &mut Toks) -> String {
         "bins" | "grid" | "hist" | "histm" => r_hist::run(routine, t),
         "remove_nan" | "skipnan" | "skipnan_axis" => r_nan::run(routine, t),
         "minmax" => r_minmax::run(routine, t),
+        "quantiles" | "quantile" | "quantiles1" | "quantile1" | "qskipnan" => r_quant::run(routine, t),
         "profile" => {
             if cfg!(debug_assertions) {
                 "OK debug".to_string()
